@@ -9,18 +9,119 @@ import (
 	vr "github.com/jamespfennell/gtfs/internal/verifrt"
 )
 
-func Harness_smoke() {
-	a := vr.I64("a")
-	b := vr.I64("b")
-	vr.Assume(a < 100 && a > 0 && b > 0 && b < 100)
-	t := Trip{}
-	id := vr.Str("id")
-	st := []gtfs.StopTimeUpdate{{StopID: &id}}
-	now := vr.Unix(a, time.UTC)
-	t.update(&gtfs.Trip{ID: gtfs.TripID{ID: "123456_X"}, StopTimeUpdates: st}, now)
-	vr.Assert("smoke.len", len(t.StopTimes) == 1)
-	vr.Assert("smoke.id", t.StopTimes[0].StopID == id)
-	vr.Assert("smoke.bad", t.StopTimes[0].LastObserved.Unix() != 42)
+func init() {
+	vr.Register("Harness_C14_step", Harness_C14_step)
 }
 
-func init() { vr.Register("Harness_smoke", Harness_smoke) }
+func hOptTime(tag string) *time.Time {
+	t := vr.Unix(vr.I64(tag), time.UTC)
+	return vr.MaybeNil(tag+".nil", &t)
+}
+
+func hOptStr(tag string) *string {
+	s := vr.Str(tag)
+	return vr.MaybeNil(tag+".nil", &s)
+}
+
+func hEvent(tag string) *gtfs.StopTimeEvent {
+	ev := gtfs.StopTimeEvent{Time: hOptTime(tag + ".time")}
+	return vr.MaybeNil(tag+".nil", &ev)
+}
+
+// hPreTrip builds an arbitrary journal trip with k stop times.
+func hPreTrip(k int) Trip {
+	trip := Trip{
+		TripUID: vr.Str("pre.uid"), TripID: vr.Str("pre.tripid"), RouteID: vr.Str("pre.route"),
+		IsAssigned:   vr.Bool("pre.assigned"),
+		LastObserved: vr.Unix(vr.I64("pre.lastobs"), time.UTC),
+		NumUpdates:   vr.Int("pre.nupd", 0, 1000),
+	}
+	for i := 0; i < k; i++ {
+		trip.StopTimes = append(trip.StopTimes, StopTime{
+			StopID:        vr.Str(vr.T("pre", i, ".id")),
+			ArrivalTime:   hOptTime(vr.T("pre", i, ".arr")),
+			DepartureTime: hOptTime(vr.T("pre", i, ".dep")),
+			Track:         hOptStr(vr.T("pre", i, ".track")),
+			LastObserved:  vr.Unix(vr.I64(vr.T("pre", i, ".lastobs")), time.UTC),
+			MarkedPast:    hOptTime(vr.T("pre", i, ".past")),
+		})
+	}
+	return trip
+}
+
+func hUpdates(m int) []gtfs.StopTimeUpdate {
+	var ups []gtfs.StopTimeUpdate
+	for j := 0; j < m; j++ {
+		id := vr.Str(vr.T("up", j, ".id"))
+		ups = append(ups, gtfs.StopTimeUpdate{
+			StopID:    &id,
+			Arrival:   hEvent(vr.T("up", j, ".arr")),
+			Departure: hEvent(vr.T("up", j, ".dep")),
+			NyctTrack: hOptStr(vr.T("up", j, ".track")),
+		})
+	}
+	return ups
+}
+
+// One update step of a journal trip from an arbitrary pre-state (k stop times,
+// any marked-past pattern) with an arbitrary update of m stop time updates.
+func Harness_C14_step() {
+	k := vr.Int("k", 0, vr.Param("K", 2))
+	m := vr.Int("m", 0, vr.Param("M", 2))
+	now := vr.Unix(vr.I64("now"), time.UTC)
+	trip := hPreTrip(k)
+	pre := append([]StopTime(nil), trip.StopTimes...)
+	ups := hUpdates(m)
+	vid := gtfs.VehicleID{ID: vr.Str("veh.id")}
+	update := gtfs.Trip{
+		ID:              gtfs.TripID{ID: "123456_X..N", RouteID: vr.Str("up.route")},
+		StopTimeUpdates: ups,
+		Vehicle:         &gtfs.Vehicle{ID: &vid},
+	}
+	trip.update(&update, now)
+
+	post := trip.StopTimes
+	vr.Assert("C14.len", len(post) >= m && len(post)-m <= k)
+	if len(post) < m || len(post)-m > k {
+		return
+	}
+	p := len(post) - m
+	// the kept prefix ends at an occurrence of the first updated stop (or the list is rewritten / kept whole)
+	if m == 0 {
+		vr.Assert("C14.no_drop_empty_update", p == k)
+	} else {
+		var absent = true
+		var conds []bool
+		for i := 0; i < k; i++ {
+			conds = append(conds, pre[i].StopID != *ups[0].StopID)
+		}
+		absent = vr.And(conds...)
+		if p < k {
+			vr.Assert("C14.no_drop_before_first", vr.Or(pre[p].StopID == *ups[0].StopID, vr.And(absent, p == 0)))
+		} else {
+			// nothing of the old list was matched: only legal if the first updated stop is absent and the list was empty
+			vr.Assert("C14.no_drop_before_first", vr.And(absent, p == 0))
+		}
+	}
+	// the tail is exactly the update
+	for j := 0; j < m; j++ {
+		got := post[p+j]
+		want := StopTime{
+			StopID:        *ups[j].StopID,
+			ArrivalTime:   ups[j].GetArrival().Time,
+			DepartureTime: ups[j].GetDeparture().Time,
+			Track:         ups[j].NyctTrack,
+			LastObserved:  now,
+			MarkedPast:    nil,
+		}
+		vr.Assert("C14.tail", vr.DeepEq(got, want))
+	}
+	// the kept entries are unchanged, and marked past exactly once
+	for i := 0; i < p; i++ {
+		want := pre[i]
+		if want.MarkedPast == nil {
+			want.MarkedPast = &now
+		}
+		vr.Assert("C14.kept_unchanged", vr.DeepEq(post[i], want))
+	}
+}
